@@ -151,7 +151,9 @@ namespace l2cap {
     {
         const std::uint8_t code = in_size > 0 ? input[ 0 ] : 0;
 
-        if ( code == connection_parameter_update_response_code && pending_status_ == transmitted )
+        // only the response to the outstanding request (same identifier) completes the request
+        if ( code == connection_parameter_update_response_code && pending_status_ == transmitted
+          && in_size >= 2 && input[ 1 ] == identifier_ )
         {
             pending_status_ = idle;
             identifier_ = static_cast< std::uint8_t >( identifier_ + 1 );
